@@ -1512,6 +1512,46 @@ func (s *pstate) decide(t *Term) int {
 	if r := decideFact(f, s.facts); r >= 0 {
 		return r
 	}
+	return decideByCases(f, s.facts)
+}
+
+// decideByCases: a comparison with an enumeration constant that the compound conditions recorded so far settle
+// by case analysis (¬(paused ∧ left) and ¬(completed ∨ ((running ∨ paused) ∧ ¬left)) leave only running).
+func decideByCases(f Fact, facts FactSet) int {
+	t := f.T
+	if t.Op != "==" || len(t.A) != 2 || !isConstTerm(t.A[1]) || enumSize(t.A[1]) == 0 {
+		return -1
+	}
+	mentioned := false
+	for _, g := range facts {
+		if g.T.Op != "||" && g.T.Op != "&&" {
+			continue
+		}
+		g.T.Walk(func(x *Term) bool {
+			if x.Op == "==" && len(x.A) == 2 && x.A[0].Eq(t.A[0]) && isConstTerm(x.A[1]) {
+				mentioned = true
+			}
+			return !mentioned
+		})
+		if mentioned {
+			break
+		}
+	}
+	if !mentioned {
+		return -1
+	}
+	res := func(v bool) int {
+		if v != f.Neg {
+			return 1
+		}
+		return 0
+	}
+	if facts.entails(t, true) {
+		return res(true)
+	}
+	if facts.entails(t, false) {
+		return res(false)
+	}
 	return -1
 }
 
